@@ -52,7 +52,8 @@ def main(tier, seed):
     for q in list(qs[-n_d2:]):
         if q[0] in ("and", "or"):
             qs.append((q[0], q[2], q[1]))
-    rqs = [M.real_query(tf, q) for q in qs]
+    shared_builders = {}                       # as in C09: all queries derive from one set of builder objects
+    rqs = [M.real_query(tf, q, shared_builders) for q in qs]
     n = len(qs)
     eq_rows, hashable, direct_bad = [], [], []
     behaviour = [tuple(qtie.impl_eval(tf, rq, rp) for rp in rpts) for rq in rqs]
